@@ -33,6 +33,23 @@ THEOREMS = ["C36_bresham_in_bbox", "C36_bresham_endpoints", "C36_draw_line_in_im
             "C36_contours_ok_le_4x4", "C36_contours_checker_sound", "C36_nonvacuous_contours"]
 
 
+def correspond_once(ctx, name, group, req, cases, agree, prop_ok, show, shard, fn_name):
+    """C23 pattern with ONE model evaluation: the alarm is `prop_ok` on the implementation's outcome
+    (ctx.correspond with agree = prop_ok), the deterministic-model comparison `agree` is evaluated
+    in the same Coq pass and only reported as a number."""
+    terms = [c["term"] for c in cases]
+    dis, pf, err = ctx.coq_eval_cases(group, req, terms, agree, prop_ok, shard, tag=name[:8].replace("-", ""))
+    if err:
+        raise vf.CheckerBroken("model evaluation failed for %s: %s" % (name, err))
+    orig = ctx.coq_eval_cases
+    ctx.coq_eval_cases = lambda *a, **k: (list(pf), list(pf), None)   # results of the pass above
+    try:
+        ctx.correspond(name, group, req, cases, agree=prop_ok, prop_ok=prop_ok, show=show, shard=shard, fn_name=fn_name)
+    finally:
+        ctx.coq_eval_cases = orig
+    return len([i for i in dis if i not in set(pf)])
+
+
 def main(ctx):
     ctx.rule = ("drawing: seeded random fill_rect/stroke_rect/draw_line/draw_polygon/Painter::draw_polygon calls on images 0..12 x 0..12 "
                 "(view inside a guard band), coordinates inside / near / far outside / huge (+-2^30; wide lines bounded to +-40 around "
@@ -51,20 +68,14 @@ def main(ctx):
     draw = [c for c in cases if c["input"].startswith("D|")]
     cont = [c for c in cases if c["input"].startswith("C|")]
     # The alarm: the implementation's own outcome must satisfy the property oracle.
-    if draw:
-        ctx.correspond("drawing-stays-in-image-and-shape", GROUP, REQ_D, draw, agree="prop_ok_draw", prop_ok="prop_ok_draw",
-                       show="show_draw", shard=300, fn_name="ImageProc.Draw.prop_ok_draw")
-    if cont:
-        ctx.correspond("contours-valid", GROUP, REQ_C, cont, agree="prop_ok_contours", prop_ok="prop_ok_contours",
-                       show="show_contours", shard=500, fn_name="ImageProc.Contours.prop_ok_contours")
     # Informational: does the code still coincide with the deterministic models the theorems are about?
     drift = {}
     if draw:
-        dis, _, err = ctx.coq_eval_cases(GROUP, REQ_D, [c["term"] for c in draw], "agree_draw", "prop_ok_draw", 300, tag="ddet")
-        drift["drawing"] = len(dis) if not err else "evaluation error"
+        drift["drawing"] = correspond_once(ctx, "drawing-stays-in-image-and-shape", GROUP, REQ_D, draw, "agree_draw",
+                                           "prop_ok_draw", "show_draw", 400, "ImageProc.DrawCases.prop_ok_draw")
     if cont:
-        dis, _, err = ctx.coq_eval_cases(GROUP, REQ_C, [c["term"] for c in cont], "agree_contours", "prop_ok_contours", 500, tag="cdet")
-        drift["contours"] = len(dis) if not err else "evaluation error"
+        drift["contours"] = correspond_once(ctx, "contours-valid", GROUP, REQ_C, cont, "agree_contours",
+                                            "prop_ok_contours", "show_contours", 500, "ImageProc.Contours.prop_ok_contours")
     ctx.extra["deterministic_model_disagreements"] = drift
     if any(v for v in drift.values()):
         ctx.log("note: deviations from the deterministic models (property oracle still decides): %s" % drift)
